@@ -26,6 +26,8 @@ type c15uCase struct {
 	Cut     string   `json:"cut,omitempty"`
 	Add     string   `json:"add,omitempty"`
 	StripQ  []string `json:"strip_q,omitempty"`
+	SessPos int      `json:"sess_pos,omitempty"` // calls 1.. go through the SAME Backend instance as call 0
+	Variant bool     `json:"variant,omitempty"`  // same decoded path as the previous call, spelled differently
 }
 
 type c15uOut struct {
@@ -136,7 +138,7 @@ func c15uGen(r *vf.Rand) c15uCase {
 	return c
 }
 
-func c15uRun(c c15uCase) c15uOut {
+func c15uBackend(c c15uCase) *Backend {
 	b := &Backend{Host: c.Host}
 	if c.HasRw {
 		b.URLRewriter = &URLRewriter{
@@ -146,6 +148,73 @@ func c15uRun(c c15uCase) c15uOut {
 			QueryParamsToRemove: QueryParamsRemover(c.StripQ),
 		}
 	}
+
+	return b
+}
+
+// c15uVariant spells the same decoded path differently (any byte literally or escaped, either hex case).
+func c15uVariant(r *vf.Rand, dec string) string {
+	p := vf.Pick(r, []int{10, 30, 60})
+
+	var sb strings.Builder
+
+	for i := 0; i < len(dec); i++ {
+		b := dec[i]
+		if b == '%' || b == '?' || b == '#' || b <= 0x20 || b >= 0x7f || r.Chance(p) {
+			hex := "0123456789ABCDEF"
+			if r.Bool() {
+				hex = "0123456789abcdef"
+			}
+
+			sb.WriteByte('%')
+			sb.WriteByte(hex[b>>4])
+			sb.WriteByte(hex[b&15])
+		} else {
+			sb.WriteByte(b)
+		}
+	}
+
+	return sb.String()
+}
+
+// c15uGenSession: 1..5 CreateURL calls on ONE Backend; the followers mostly carry the
+// previous call's decoded path in another spelling.
+func c15uGenSession(r *vf.Rand) []c15uCase {
+	first := c15uGen(r.Fork(0))
+
+	n := 1
+	if r.Chance(45) {
+		n = r.Range(2, 5)
+	}
+
+	out := []c15uCase{first}
+
+	for j := 1; j < n; j++ {
+		rj := r.Fork(uint64(j))
+		prev := out[j-1]
+		c := c15uGen(rj)
+		c.Host, c.HasRw, c.RwSch, c.Cut, c.Add, c.StripQ = first.Host, first.HasRw, first.RwSch, first.Cut, first.Add, first.StripQ
+
+		switch x := rj.Intn(100); {
+		case x < 55:
+			c.Path = prev.Path
+			c.RawPath = c15uVariant(rj, prev.Path)
+			c.Variant = c.RawPath != prev.RawPath
+		case x < 70:
+			c.Path, c.RawPath = prev.Path, ""
+			c.Variant = prev.RawPath != ""
+		case x < 80:
+			c.Path, c.RawPath = prev.Path, prev.RawPath
+		}
+
+		c.SessPos = j
+		out = append(out, c)
+	}
+
+	return out
+}
+
+func c15uRun(b *Backend, c c15uCase) c15uOut {
 
 	in := &url.URL{Scheme: c.Scheme, Host: "h.example.com", Path: c.Path, RawPath: c.RawPath, RawQuery: c.Query}
 	u := b.CreateURL(in)
@@ -209,6 +278,14 @@ func c15uTags(c c15uCase, o c15uOut) ([]string, bool) {
 		tags = append(tags, "u:out-rawpath-set")
 	}
 
+	if c.SessPos > 0 {
+		tags = append(tags, "u:session-follower")
+	}
+
+	if c.Variant {
+		tags = append(tags, "u:other-spelling-of-previous-path")
+	}
+
 	return tags, nontrivial
 }
 
@@ -220,11 +297,21 @@ func TestVerifC15Units(t *testing.T) {
 	n := vf.N(1000)
 	idx := 0
 
+	var backend *Backend
+
 	emit := func(stream string, c c15uCase) {
-		if vf.Want(idx) {
-			o := c15uRun(c)
-			tags, nontrivial := c15uTags(c, o)
-			w.Put(vf.Obs{I: idx, Stream: stream, In: c, Out: o, Coq: c15uCoq(c, o), Nontrivial: nontrivial, Tags: tags})
+		// one Backend (and URLRewriter) instance per session
+		if c.SessPos == 0 || backend == nil {
+			backend = c15uBackend(c)
+		}
+
+		if vf.Want(idx) || vf.Only() > idx {
+			o := c15uRun(backend, c)
+
+			if vf.Want(idx) {
+				tags, nontrivial := c15uTags(c, o)
+				w.Put(vf.Obs{I: idx, Stream: stream, In: c, Out: o, Coq: c15uCoq(c, o), Nontrivial: nontrivial, Tags: tags})
+			}
 		}
 
 		idx++
@@ -238,11 +325,22 @@ func TestVerifC15Units(t *testing.T) {
 		{Scheme: "http", Path: "*", RawPath: "", Host: "up", HasRw: true, Add: "/p"},
 		{Scheme: "", Path: "", RawPath: "", Host: "up", HasRw: true, Cut: "/"},
 		{Scheme: "https", Path: "/img", RawPath: "/img", Host: "up", HasRw: true, Add: "/%zz", RwSch: "http"},
+		// one Backend, the same decoded path in other spellings
+		{Scheme: "http", Path: "/api/files/a/b", RawPath: "/api/files/a%2Fb", Host: "up", HasRw: true, Cut: "/api", Add: "/v1"},
+		{Scheme: "http", Path: "/api/files/a/b", RawPath: "/api/files/a/b", Host: "up", HasRw: true, Cut: "/api", Add: "/v1", SessPos: 1, Variant: true},
+		{Scheme: "http", Path: "/api/files/a/b", RawPath: "", Host: "up", HasRw: true, Cut: "/api", Add: "/v1", SessPos: 2, Variant: true},
+		{Scheme: "http", Path: "/api/files/a/b", RawPath: "/api/files/a%2fb", Host: "up", HasRw: true, Cut: "/api", Add: "/v1", SessPos: 3, Variant: true},
+		{Scheme: "http", Path: "/abc", RawPath: "/%61bc", Host: "up", HasRw: true, RwSch: "https"},
+		{Scheme: "http", Path: "/abc", RawPath: "/abc", Host: "up", HasRw: true, RwSch: "https", SessPos: 1, Variant: true},
 	} {
 		emit("corpus", c)
 	}
 
-	for i := 0; i < n; i++ {
-		emit("generated", c15uGen(root.Fork(uint64(i))))
+	nCorpus := idx
+
+	for si := 0; idx < nCorpus+n; si++ {
+		for _, c := range c15uGenSession(root.Fork(uint64(si))) {
+			emit("generated", c)
+		}
 	}
 }
